@@ -1,9 +1,11 @@
 package main
 
 import (
+	"context"
 	"fmt"
 	"os"
 	"strings"
+	"time"
 
 	. "zvh/hx"
 )
@@ -46,6 +48,124 @@ func runHistory(res *Result, cfg PoolCfg, ops []HOp) error {
 	return nil
 }
 
+// mergeRace: a merge of b1 into main races with loads on main (and on b1) from
+// another handle; the token scheduler preempts at journal writes.  Whatever
+// the interleaving: both branches stay readable, an acknowledged merge leaves
+// main = main-before + b1's additions + every acknowledged concurrent load
+// (data committed to either branch after the merge started is kept).
+func mergeRace(res *Result, rng *Rng, it int) error {
+	ctx := context.Background()
+	env, err := NewLakeEnv()
+	if err != nil {
+		return err
+	}
+	quiet := NewResult("C15")
+	cfg := PoolCfg{Key: "k", Thresh: 40, Stride: 8}
+	lr, err := NewLakeRun(env.API, env, cfg, quiet, "C15")
+	if err != nil {
+		return err
+	}
+	base := []string{"{k:1,j:0,id:1}", "{k:2,j:1,id:2}", "{k:3,j:2,id:3}"}
+	if err := lr.Apply(HOp{Kind: "load", Branch: "main", Vals: base}); err != nil {
+		return err
+	}
+	if err := lr.Apply(HOp{Kind: "branch", Branch: "main", Other: "b1", Commit: 1}); err != nil {
+		return err
+	}
+	child := []string{"{k:7,j:0,id:50}", "{k:8,j:1,id:51}"}
+	if err := lr.Apply(HOp{Kind: "load", Branch: "b1", Vals: child}); err != nil {
+		return err
+	}
+	sched := NewSched(rng, 2, 2+rng.Intn(6))
+	sched.Num, sched.Den = 1, 8
+	sched.Hot = func(op StorageOp) bool {
+		return op.Kind == "putx" || (op.Kind == "put" && strings.HasSuffix(op.Path, "/HEAD")) || (op.Kind == "put" && strings.Contains(op.Path, "/commits/"))
+	}
+	open := func(c int) (*LakeEnv, error) {
+		v := env.Eng.View(nil)
+		e, err := OpenLakeEnv(v)
+		if err != nil {
+			return nil, err
+		}
+		v.Hook = sched.HookFor(c)
+		return e, nil
+	}
+	a, err := open(0)
+	if err != nil {
+		return err
+	}
+	b, err := open(1)
+	if err != nil {
+		return err
+	}
+	var mergeErr error
+	racers := [][]string{{fmt.Sprintf("{k:4,j:0,id:%d}", 100+it)}, {fmt.Sprintf("{k:5,j:1,id:%d}", 200+it)}}
+	racerErr := make([]error, len(racers))
+	nr := 1 + rng.Intn(2)
+	done := make(chan struct{}, 2)
+	go func() {
+		defer func() { sched.Finish(0); done <- struct{}{} }()
+		mergeErr = Safely(func() error {
+			_, err := a.API.MergeBranch(ctx, lr.PoolID, "b1", "main", Msg())
+			return err
+		})
+	}()
+	go func() {
+		defer func() { sched.Finish(1); done <- struct{}{} }()
+		for i := 0; i < nr; i++ {
+			i := i
+			racerErr[i] = Safely(func() error {
+				_, err := b.LoadZSON(lr.PoolID, "main", strings.Join(racers[i], "\n"))
+				return err
+			})
+		}
+	}()
+	sched.Start(rng.Intn(2))
+	for i := 0; i < 2; i++ {
+		select {
+		case <-done:
+		case <-time.After(120 * time.Second):
+			res.Fail(Failure{Kind: "oracle", Sig: "C15:merge-race-hang", Detail: "merge racing with loads did not finish", Replay: map[string]any{"iteration": it}, Expected: "returns", Observed: "hang"})
+			return nil
+		}
+	}
+	obs, err := OpenLakeEnv(env.Eng.View(nil))
+	if err != nil {
+		return err
+	}
+	want := CanonAll(base)
+	for i := 0; i < nr; i++ {
+		if racerErr[i] == nil {
+			want = append(want, CanonAll(racers[i])...)
+		}
+	}
+	if mergeErr == nil {
+		want = append(want, CanonAll(child)...)
+	}
+	got, qerr := obs.Query("from p@main", 1)
+	res.Evaluations++
+	res.Count("merge_race_runs")
+	nsw := 0
+	for i := 1; i < len(sched.Trace); i++ {
+		if sched.Trace[i] != sched.Trace[i-1] {
+			nsw++
+		}
+	}
+	if nsw > 0 {
+		res.Distinctly(fmt.Sprintf("race:%d:%v", it, sched.Trace))
+	}
+	rep := map[string]any{"merge_err": fmt.Sprint(mergeErr), "racer_errs": fmt.Sprint(racerErr[:nr]), "schedule": sched.Trace, "got": got, "want": SortedCopy(want)}
+	if qerr != nil {
+		res.Fail(Failure{Kind: "oracle", Sig: "C15:merge-race-parent-unreadable", Detail: "main cannot be read after a merge raced with loads: " + qerr.Error(), Replay: rep, Expected: "readable", Observed: qerr.Error()})
+	} else if strings.Join(SortedCopy(got), "\n") != strings.Join(SortedCopy(want), "\n") {
+		res.Fail(Failure{Kind: "oracle", Sig: "C15:merge-race-lost-or-phantom-data", Detail: fmt.Sprintf("after a merge of b1 into main raced with %d load(s) on main (merge err=%v, load errs=%v) main holds %d values, the acknowledged operations imply %d: missing %v, unexpected %v", nr, mergeErr, racerErr[:nr], len(got), len(want), MultisetMinus(want, got), MultisetMinus(got, want)), Replay: rep, Expected: strings.Join(SortedCopy(want), " "), Observed: strings.Join(SortedCopy(got), " ")})
+	}
+	if _, err := obs.Query("from p@b1", 1); err != nil {
+		res.Fail(Failure{Kind: "oracle", Sig: "C15:merge-race-child-unreadable", Detail: "b1 cannot be read after the race: " + err.Error(), Replay: rep, Expected: "readable", Observed: err.Error()})
+	}
+	return nil
+}
+
 func c15(o Opts) error {
 	res := NewResult("C15")
 	rng := NewRng(o.Seed)
@@ -77,7 +197,16 @@ func c15(o Opts) error {
 			res.Count("directed")
 		}
 	}
-	res.Rule = "random histories over {load, delete, delete-where, compact, branch (from any commit incl. empty main), merge (both directions, repeated), revert (any earlier commit incl. merge/compact/revert commits)} on 1..4 branches plus directed both-sides-delete/compact scenarios; after every operation every branch is scanned and compared with the object-set specification (merge: parent + child adds since base - child deletes since base, or conflict error and parent untouched; revert: remove what the commit added if present, restore what it deleted if absent); non-trivial = history contains a merge or a revert"
+	nrace := 60
+	if o.Tier == "thorough" {
+		nrace = 2000
+	}
+	for i := 0; i < nrace; i++ {
+		if err := mergeRace(res, rng, i); err != nil {
+			return err
+		}
+	}
+	res.Rule = "merge racing with loads on the parent under a token scheduler (60 quick / 2000 thorough schedules); random histories over {load, delete, delete-where, compact, branch (from any commit incl. empty main), merge (both directions, repeated), revert (any earlier commit incl. merge/compact/revert commits)} on 1..4 branches plus directed both-sides-delete/compact scenarios; after every operation every branch is scanned and compared with the object-set specification (merge: parent + child adds since base - child deletes since base, or conflict error and parent untouched; revert: remove what the commit added if present, restore what it deleted if absent); non-trivial = history contains a merge or a revert"
 	var sb strings.Builder
 	sb.WriteString("From ZV Require Import Base.Prelude Model.Merge Model.MergeCases.\n")
 	WriteCoqList(&sb, "merge_cases", "merge_case", mergeCases)
